@@ -28,7 +28,13 @@ Case gen_C08(uint64_t seed, long run, const GenCfg &g, const char *inflight) {
     t.mats.push_back(A);
     Op nw; nw.kind = "new"; nw.mat = 0; nw.storage = ((kind == "gssvx" || kind == "gsisx") && r.chance(0.15)) ? 1 : 0;
     Op mo; mo.kind = kind; gen_options(r, mo, A.m == A.n, cplx); mo.fact = DOFACT;
-    if (kind == "gsisx" || kind == "ipipe") gen_ilu_options(r, mo);
+    if (kind == "gsisx" || kind == "ipipe") {
+        gen_ilu_options(r, mo);
+        // incomplete LU keeps its arrays small by dropping; in 40 % of the ILU cases little or nothing is dropped while the
+        // fill factor stays small, so that ucol/usub/lusup/lsub grow inside ilu_*copy_to_ucol / *gsitrf as well (own stream)
+        Rng rb(mix3(seed, 0x0808, (uint64_t)run));
+        if (rb.chance(0.4)) { mo.droprule = rb.chance(0.5) ? NODROP : DROP_BASIC; if (rb.chance(0.5)) mo.droptol = 0.0; mo.fillfactor = rb.chance(0.5) ? 1.5 : 2.0; }
+    }
     if (kind == "pipe" || kind == "ipipe") { mo.stages = (int)r.below(16); mo.equil = 0; }
     Op ds; ds.kind = "destroy";
     t.ops = {nw, mo, ds};
@@ -53,7 +59,7 @@ static ExecCfg c08_cfg(uint64_t budget) {
 // one enumerated run: outcome must be "reported shortage" or "same class and bit-identical to the reference"
 static long c08_one(C08Ctx &x, const EnvSpec &e0, const char *what) {
     EnvSpec e = e0;
-    if (x.ref_singular) { e.garbage = G_ZERO; e.wsgarbage = G_ZERO; } // known finding KF-zero-pivot: singular inputs run with clean fresh memory only
+    if (x.ref_singular) { e.garbage |= G_CLEAN_GROWTH; e.wsgarbage = G_ZERO; } // known finding KF-zero-pivot: for singular inputs the growable factor arrays and the workspace are handed out zeroed
     TaskPlan q = apply_env(x.plan, e);
     PlanRun pr = run_plan_single(q, c08_cfg(x.budget));
     x.h.u64(pr.evhash);
